@@ -379,6 +379,12 @@ func (e *env) updateProofs() {
 			// subgroup membership of the proof components
 			if e.t1 != nil {
 				tf("commitment-plus-cofactor-torsion", e.makeProof(oadd(e.g1, com, e.t1), pok), chal, dst, upd, prev)
+				// the same with the proof of knowledge recomputed for the shifted commitment (R depends on it): every
+				// pairing equation is unchanged by the torsion component, only the subgroup test can refuse it
+				comT := oadd(e.g1, com, e.t1)
+				if RT, ok := e.pokBase(comT, chal, dst); ok {
+					tf("commitment-plus-cofactor-torsion-pok-recomputed", e.makeProof(comT, e.in.Mul2(RT, x)), chal, dst, upd, prev)
+				}
 			} else {
 				c.Class(op + "/not-applicable/G1-cofactor-1")
 			}
